@@ -133,11 +133,17 @@ Example registered_subscriber_exists :
 Proof. vm_compute. reflexivity. Qed.
 
 (* ---- non-vacuity of C01_fold_runtime_registration / C07_registered_never_left_out: a reducer
-   added at run time between two dispatches takes part in the second action only ---- *)
+   added at run time after the first action was completely processed takes part in the second
+   action only ---- *)
 Definition w_dyn := scenario_world sc0 16 Block [0%N] [] []
-  [[CDispatch EStoreImpl 1%N; CGetState; CAddReducer 5%N; CDispatch EStoreImpl 2%N]].
+  [[CDispatch EStoreImpl 1%N; CAddReducer 5%N; CDispatch EStoreImpl 2%N]].
+Definition sched_dyn : list N := [0;0;0;100;100;100;100;100;100;100]%N.
 Example runtime_registration_exists :
-  let w := drive 400 w_dyn in
-  w_state w = [(0, 1); (0, 2); (5, 2)]%N /\ w_reducers w = [0; 5]%N /\
-  reds_all [0%N] (w_hist w) = [0; 5]%N /\ length (writes (w_hist w)) = 2.
+  match run0 w_dyn sched_dyn with
+  | Some w1 =>
+      let w := drive 400 w1 in
+      w_state w = [(0, 1); (0, 2); (5, 2)]%N /\ w_reducers w = [0; 5]%N /\
+      reds_all [0%N] (w_hist w) = [0; 5]%N /\ length (writes (w_hist w)) = 2
+  | None => False
+  end.
 Proof. vm_compute. repeat split. Qed.
